@@ -1,1 +1,6 @@
 import DiffcalcProofs.Props.C09
+import DiffcalcProofs.Props.C10
+import DiffcalcProofs.Props.C18
+import DiffcalcProofs.Props.C16
+import DiffcalcProofs.Props.C08
+import DiffcalcProofs.Props.C08Miscut
